@@ -48,6 +48,12 @@ class PairingRoles:
             return [b for (i2, o2), bs in by.items() for b in bs if i2 == tuple(nrm(x) for x in ins) and pair12(o2)]
         self.tangent_eval = gp(["&" + G2T, "&" + G1T])
         self.chord_eval = gp(["&" + G2T, "&" + G2T, "&" + G1T])
+        if not self.chord_eval:
+            # the chord evaluation handed precomputed powers of the fixed point's z as extra Fq2 parameters (hoisted out of the loop
+            # by the caller): same role; what the extras are is read off the call sites (weight.rule_weight_lines)
+            want = tuple(nrm(x) for x in ["&" + G2T, "&" + G2T, "&" + G1T])
+            self.chord_eval = [b for (i2, o2), bs in by.items() for b in bs if pair12(o2) and tuple(x for x in i2 if x != FQ2) == want and 0 < sum(1 for x in i2 if x == FQ2) <= 3
+                               and i2[:2] == want[:2]]
         def triple_like(out):
             """the three line coefficients: the tuple, or a crate-local struct of exactly three Fq2 fields"""
             if out == TRIPLE:
